@@ -56,6 +56,7 @@ struct HPca : Harness {
     if (r < (quick ? 75u : 60u)) { n = (int)wr.range(2, 12); pp = (int)wr.range(1, 6); }
     else if (r < (quick ? 97u : 90u)) { n = (int)wr.range(2, 30); pp = (int)wr.range(1, 12); }
     else { n = (int)wr.range(10, 60); pp = (int)wr.range(1, 25); }
+    if (wr.chance(0.012)) { n = (int)wr.range(100, 300); pp = (int)wr.range(20, 60); p.seti("large", 1); }  // a size threshold in the kernels must not hide a path
     p.seti("rows", n); p.seti("cols", pp);
     p.seti("scaling", (int)wr.range(-1, 5));
     p.setd("npc_frac", wr.unit());
@@ -160,6 +161,7 @@ struct HPca : Harness {
     o.sched_sig = B.sr.sched_sig; o.nontrivial = B.sr.max_live >= 2;
     o.counters["nproc." + std::to_string(nproc)]++;
     o.counters["scaling." + std::to_string(scaling)]++;
+    if (p.geti("large", 0)) o.counters["probe.large_operand"]++;
     o.counters[n < pp ? "shape.wide" : n == pp ? "shape.square" : "shape.tall"]++;
     if (nproc > n) o.counters["probe.nproc_gt_rows"]++;
     if (nproc > pp) o.counters["probe.nproc_gt_cols"]++;
